@@ -47,6 +47,7 @@ LEVEL["decided"] += ' (R09.10) every history of next / close operations on 2-3 c
 LEVEL["decided"] += " (R09.11) no value an item could have is read as 'the source is exhausted' (R01.7, shared); a pull through anext(source, default) is recognised as the pull site."
 LEVEL["decided"] += ' (R09.12) a child leaves its loop only after the StopAsyncIteration of its own pull (decided on paths, with boolean flags tracked).'
 LEVEL["technique"] += '; operation histories of the evaluated tee (object model with generator frames) against the executed itertools.tee'
+LEVEL["decided"] += " (R09.13) the tee object refers to its children's buffers only through the list a finished child removes its buffer from (R20.8, shared); R09.6 also: the source is closed nowhere but in the clean-up conditioned on 'no buffer remains'."
 
 SUSPEND = ("await", "yield", "pull", "enter", "exit_cm")
 
